@@ -240,3 +240,17 @@ Proof.
   - destruct r as [|k hosts]; [exact B|].
     destruct (step_op15 s k hosts) as [-> | [_ [_ ->]]]; [exact B | apply built_set_hosts; exact B].
 Qed.
+
+(* op 40 keeps the number of recorded hosts of the stripe *)
+Lemma fold_set_nth_len : forall (ps : list (nat * N)) (h : list N),
+  length (fold_left (fun h p => set_nth (fst p) (snd p) h) ps h) = length h.
+Proof. induction ps as [|p ps IH]; intro h; simpl; [reflexivity|]. rewrite IH. apply set_nth_len. Qed.
+
+Lemma plan_hosts_len : forall n m hosts bad newids p,
+  reconstruct_plan n m hosts bad newids = Some p -> length (p_hosts p) = length hosts.
+Proof.
+  intros n m hosts bad newids p H. unfold reconstruct_plan in H.
+  destruct (Nat.ltb _ n); [discriminate|].
+  destruct (filter _ _) as [|d0 dst]; [discriminate|].
+  destruct (negb _); [discriminate|]. injection H as <-. simpl. apply fold_set_nth_len.
+Qed.
